@@ -676,7 +676,12 @@ def impl_form(b, u, mp_, mm, chunks):
 
     def wsgi():
         from baize.wsgi import Request
-        env = util.wsgi_environ("POST", "/", headers=[("content-type", content_type_header(b, u))])
+        hs = [("content-type", content_type_header(b, u))]
+        if sum(len(c) for c in chunks) % 2 == 0:
+            # as a gateway does for a body that is not chunked: Content-Length announced, wsgi.input hands out what has
+            # arrived (short reads are legal); the other half of the cases: no Content-Length (chunked transfer coding)
+            hs.append(("content-length", str(sum(len(c) for c in chunks))))
+        env = util.wsgi_environ("POST", "/", headers=hs)
         env["wsgi.input"] = ChunkReader(chunks)
         req = Request(env)
         return show_items(req.form.multi_items(), read)
